@@ -320,7 +320,8 @@ def encoder(prop, tier, seed, replay):
             b, small, large, seed, out),
         replay_cmd=lambda b, cf, out, rep: "%s/drive-codec buffers --cases %s --out %s" % (b, cf, out),
         trace_spec=("TraceEncoder.tla", "TraceEncoder.cfg"),
-        case_of=lambda r: {"lens": r["lens"], "buf": r["buf"], "prefill": r["prefill"]},
+        case_of=lambda r: {"lens": r["lens"], "attrs": r.get("attrs", []), "use_attrs": r.get("use_attrs", False),
+                           "buf": r["buf"], "prefill": r["prefill"]},
         rule="one record = one MessageEncoder::encode call for a message given by its attribute value "
              "lengths into a buffer of a given length and prefill: every buffer length 0..needed+8 x 3 "
              "prefills for small messages; buffers around needed / 64 KiB for messages whose body sits at, "
